@@ -222,7 +222,11 @@ func genBig(t *rapid.T, label string) uint64 {
 		return uint64(rapid.IntRange(0, 200).Draw(t, label))
 	case 2:
 		sh := rapid.IntRange(1, 62).Draw(t, label+"_sh")
-		return uint64(1)<<uint(sh) + uint64(rapid.IntRange(-2, 2).Draw(t, label+"_d"))
+		d := rapid.IntRange(-2, 2).Draw(t, label+"_d")
+		if rapid.IntRange(0, 3).Draw(t, label+"_far") == 0 {
+			d = rapid.IntRange(3, 20000).Draw(t, label+"_dfar") // a little further above the power of two
+		}
+		return uint64(1)<<uint(sh) + uint64(d)
 	default:
 		return rapid.Uint64Range(0, 1<<63).Draw(t, label)
 	}
@@ -257,6 +261,14 @@ func TestC09Rand(t *testing.T) {
 		}
 		forked := rapid.IntRange(0, 3).Draw(rt, "forked") == 0
 		pv := variants[rapid.IntRange(0, len(variants)-1).Draw(rt, "pv")]
+		if vlib.Pct(rt, 25, "honest") {
+			// the one cell where everything is right: old = stored <= submitted, same
+			// branch, correct proof - must be accepted for every pair of sizes
+			if n < s {
+				s, n = n, s
+			}
+			o, forked, pv = s, false, variants[2] // "correct"
+		}
 		c := &vlib.HistCase{Prop: "C09", Storage: rapid.SampledFrom([]string{"mem", "sql"}).Draw(rt, "storage"), Seed: "B", Filler: 64,
 			Forks: []vlib.ForkSpec{{Parent: 0, At: uint64(rapid.IntRange(0, 63).Draw(rt, "fork"))}},
 			Logs:  []vlib.LogSpec{{Origin: "example.com/log", KeyLabel: "log0", KeyName: "logkey"}}, WKeys: vlib.ProdWKeys}
